@@ -54,12 +54,13 @@ pub fn locaddr(
 /// current SYSCALL onto the stack.
 ///
 /// # Errors
-/// Returns an error if the instruction is being executed outside of kernel context.
+/// Returns an error if the instruction is used outside of a kernel module (this includes library
+/// modules loaded while a kernel is being compiled).
 pub fn caller(
     span: &mut SpanBuilder,
     context: &AssemblyContext,
 ) -> Result<Option<CodeBlock>, AssemblyError> {
-    if !context.is_kernel() {
+    if !context.is_kernel_module() {
         return Err(AssemblyError::caller_out_of_kernel());
     }
     span.add_op(Caller)
